@@ -18,6 +18,8 @@ class Boom(Exception):
 def _run(self):
     if self.mode == 'fail':
         raise Boom(f'{type(self).__name__}:{self.name}')
+    if self.mode == 'fail0':          # an exception WITHOUT a message (str(ex) == ''), as a bare assert / raise ValueError() gives
+        raise ValueError()
     if self.mode == 'exit':
         raise SystemExit(3)
     if self.mode in ('slow', 'slower'):
@@ -59,7 +61,7 @@ class K:          # cacheable
 
 def expected_value(task):
     """Reference evaluator: sequential dependency-first value (None if the task or something it reads fails)."""
-    if task.mode in ('fail', 'exit'):
+    if task.mode in ('fail', 'fail0', 'exit'):
         return None
     if task.mode == 'ignore':
         return (type(task).__name__, task.name, 'ignored-deps')
@@ -180,6 +182,18 @@ class KC:
         if d:
             open(os.path.join(d, f'{self.name}-{os.getpid()}-{len(os.listdir(d))}'), 'w').close()
         return ('KC', self.name, tuple(x.result for x in self.deps))
+
+
+@labtech.task
+class KV:      # cacheable, one free parameter (any supported value), one mark file per execution
+    name: str
+    v: object = None
+
+    def run(self):
+        d = os.environ.get('EXPLORE_EXEC_DIR')
+        if d:
+            open(os.path.join(d, f'{self.name}-{os.getpid()}-{len(os.listdir(d))}'), 'w').close()
+        return ('KV', self.name)
 
 
 @labtech.task(cache=None)
